@@ -511,6 +511,9 @@ func (its *jsonPrimitive) InsertLocalInArray(
 	errors.OrdaError, // error
 ) {
 	if parentArray, ok := its.findJSONArray(parent); ok {
+		if err := parentArray.validateInsertPosition(pos); err != nil { // validated again under the lock
+			return nil, nil, err
+		}
 		target, _, err := parentArray.insertCommon(pos, nil, ts, values...)
 		return target, parentArray, err
 	}
@@ -537,6 +540,9 @@ func (its *jsonPrimitive) UpdateLocalInArray(
 	values ...interface{},
 ) ([]*model.Timestamp, []jsonType, errors.OrdaError) {
 	if parentArray, ok := its.findJSONArray(parent); ok {
+		if err := parentArray.validateGetRange(pos, len(values)); err != nil { // validated again under the lock
+			return nil, nil, err
+		}
 		return parentArray.updateLocal(pos, ts, values...)
 	}
 	return nil, nil, errors.DatatypeInvalidParent.New(its.getLogger(), parent.ToString())
@@ -560,6 +566,9 @@ func (its *jsonPrimitive) DeleteLocalInArray(
 	ts *model.Timestamp,
 ) ([]*model.Timestamp, []jsonType, errors.OrdaError) {
 	if parentArray, ok := its.findJSONArray(parent); ok {
+		if err := parentArray.validateGetRange(pos, numOfNodes); err != nil { // validated again under the lock
+			return nil, nil, err
+		}
 		t, j := parentArray.deleteLocal(pos, numOfNodes, ts)
 		return t, j, nil
 	}
